@@ -52,6 +52,18 @@ def gen_inputs(ctx):
         # a hardened component anywhere in a public path refuses the whole path
         path = [rng.randrange(2 ** 31) for _ in range(rng.randrange(0, 4))] + [i] + [rng.randrange(2 ** 31) for _ in range(rng.randrange(0, 2))]
         out.append(("DerivePath", {"root": pub_parent(rng, k), "path": [idx4(x) for x in path]}, ("refuse-path", len(path))))
+    # request sequences on ONE public node object (and on its children): descending, gapped, repeated, mixed
+    # with refusals - each answer must be the child with the requested number, whatever was derived before
+    orders = [[5, 0, 3], [7, 3, 1, 0, 2], [2, 6, 1, 2 ** 31, 0], [0, 1, 2, 3], [4, 4, 0, 4], [2 ** 31 - 1, 1, 0],
+              [rng.randrange(2 ** 31) for _ in range(3)] + [0, 1]]
+    for k, kc in rng.sample(sc, 4 if q else 16):
+        for order in (rng.sample(orders, 3) if q else orders):
+            steps = [{"from": 0, "i": idx4(i)} for i in order]
+            # second level below the first two answers, again out of order
+            steps += [{"from": 1, "i": idx4(3)}, {"from": 1, "i": idx4(0)}, {"from": 2, "i": idx4(1)}, {"from": 2, "i": idx4(0)},
+                      {"from": 0, "i": idx4(1)}, {"from": 0, "i": idx4(0)}]
+            root = pub_parent(rng, k, depth=rng.choice([0, 1, 3, 5]))
+            out.append(("CkdSeq", {"root": root, "steps": steps}, ("pubseq", order[0] > order[1], root["depth"] == 0)))
     # the outcome kinds agree under a chosen PRF as well (IL*G = -K_par <=> IL = n - k_par)
     for k, kc in rng.sample(sc, 4 if q else 12):
         il = (N - k) % N
@@ -68,6 +80,9 @@ def gen_inputs(ctx):
 
 
 def describe(ev):
+    if ev["act"] == "CkdSeq":
+        return "ckd requests %s on one public node object and its children" % (
+            [(st["from"], int.from_bytes(bytes(st["i"]), "big")) for st in ev["inp"]["steps"]],)
     if ev["act"] == "Agree":
         return "private vs public derive_path(%s) from depth %d" % (
             [int.from_bytes(bytes(x), "big") for x in ev["inp"]["path"]], ev["inp"]["root"]["depth"])
